@@ -48,6 +48,9 @@ def main():
                          'first_lines': viol[:3], 'example_replay': ex, 'wall_s': round(time.time() - t0, 1),
                          'summary': [l for l in r.stdout.splitlines() if l.startswith(prop + ' [')][-1:]}
     finally:
+        # the runs above rewrote evidence/ and the extracted constants from the CHANGED tree: put the
+        # committed ones back
+        sh(f'git -C {V} checkout -- evidence lean/GrmVerif/Extracted.lean')
         sh('git -C /repo checkout -- .')
         sh(f'cd {V} && rm -rf replays/*')
     mp = f'{d}/meta.json'
